@@ -171,7 +171,7 @@ func (h *H2Client) Recv(d, grace time.Duration) Outcome {
 					if hf.Name == ":status" {
 						o.Status, _ = strconv.Atoi(hf.Value)
 					} else {
-						o.Header.Add(hf.Name, hf.Value)
+						o.Header.Add(http.CanonicalHeaderKey(hf.Name), hf.Value)
 					}
 				}
 			}
